@@ -26,7 +26,7 @@ class ClauseLab:
         self.sx = SymEx(self.repo, inline=lambda f: f.module.name in mods and f.name != '_debug',
                         opaque=lambda n: False, max_depth=100000)
         self.sx.max_steps = 3000000
-        for need in ('compile_function_body', 'compile_program', 'compile_body', 'compile_expression'):
+        for need in ('compile_program', 'compile_body', 'compile_expression'):
             if self.repo.lookup_method(self.comp, need) is None:
                 raise AnalysisError('anchor vanished: YPPrologCompiler.%s' % need)
 
@@ -48,6 +48,38 @@ class ClauseLab:
         if len(outs) != 1:
             raise AnalysisError('%s does not evaluate deterministically on a concrete clause (%d outcomes)' % (name, len(outs)))
         return outs[0]
+
+    def program(self, prog):
+        """compile_program on {(name, arity): [clauses]} -> list of (name text, parameter names, body statements) or a problem text"""
+        d = DictV([[ListV([Const(k[0]), Const(k[1])], True), ListV([self.clause(c) for c in cl])] for k, cl in prog])
+        st, res = self.call('compile_program', [d])
+        if isinstance(res, CallV) and res.name == 'raise':
+            return 'compile_program raises: %r' % (res.args,)
+        if self.kind(res) != 'YPCodeProgram':
+            return 'compile_program gives %r, not a program of functions' % (res,)
+        fa = self.ctor_args(res)
+        funcs = self.sx.as_sequence(fa[0]) if fa else None
+        if funcs is None:
+            return 'the functions of the program are %r' % (fa[0] if fa else None,)
+        out = []
+        for fn in funcs:
+            if self.kind(fn) != 'YPCodeFunction':
+                return 'an element of the program is %r' % (fn,)
+            a = self.ctor_args(fn)
+            body = self.sx.as_sequence(a[2])
+            if body is None:
+                return 'the body of a function is %r' % (a[2],)
+            out.append((self.text(a[0]), [self.text(x) for x in (self.sx.as_sequence(a[1]) or [])], body))
+        return out
+
+    def clause_code(self, c):
+        """the statements one clause compiles to (through compile_program, in a fresh compiler) or a problem text"""
+        r = self.program([((c[0], len(c[1])), [c])])
+        if isinstance(r, str):
+            return r
+        if len(r) != 1:
+            return '%d functions for a program with one predicate' % len(r)
+        return ListV(r[0][2])
 
     # -- sample terms ---------------------------------------------------------------------
     def C(self, name, *args):
@@ -285,13 +317,13 @@ def rule_clause_scope(cm, rep, rid):
                   'variable is defined exactly once - as an alias of a parameter or as a fresh variable() - before its first use and '
                   'outside every loop, so each activation of the clause has its own variables and none is used undeclared')
     lab = ClauseLab(cm)
-    f = cm.comp.methods['compile_function_body']
+    f = cm.comp.methods['compile_program']
     n = 0
     for c in FAMILY:
         key = 'clause:%s' % show(c)
-        st, code = lab.call('compile_function_body', [lab.clause(c)])
-        if isinstance(code, CallV) and code.name == 'raise':
-            rep.violation(rid, key, 'compile_function_body raises on this clause: %r' % (code.args,), f.loc())
+        code = lab.clause_code(c)
+        if isinstance(code, str):
+            rep.violation(rid, key, code, f.loc())
             continue
         hv, bv = source_vars(c)
         srcvars = set(hv) | set(bv)
@@ -317,14 +349,13 @@ def rule_clause_head(cm, rep, rid):
                   'compares its arguments) or unify(argN, <the compiled argument>) encloses the body; inside the unifications is '
                   'exactly the code compile_body gives for the body of the clause')
     lab = ClauseLab(cm)
-    f = cm.comp.methods['compile_function_body']
+    f = cm.comp.methods['compile_program']
     n = 0
     for c in FAMILY:
         key = 'clause:%s' % show(c)
-        cl = lab.clause(c)
-        st, code = lab.call('compile_function_body', [cl])
-        if not isinstance(code, ListV):
-            rep.violation(rid, key, 'compile_function_body gives %r' % (code,), f.loc())
+        code = lab.clause_code(c)
+        if isinstance(code, str):
+            rep.violation(rid, key, code, f.loc())
             continue
         name, args, body = c
         hv, _ = source_vars(c)
@@ -416,36 +447,21 @@ def rule_program_structure(cm, rep, rid):
     n = 0
     solo = {}
     for i, c in enumerate(FAMILY):
-        st, code = lab.call('compile_function_body', [lab.clause(c)])
-        solo[i] = code
+        solo[i] = lab.clause_code(c)
     for prog in PROGRAMS:
         key = 'program:' + ' '.join('%s/%d x%d' % (k[0], k[1], len(cl)) for k, cl in prog)
-        d = DictV([[ListV([Const(k[0]), Const(k[1])], True), ListV([lab.clause(FAMILY[i]) for i in cl])] for k, cl in prog])
-        st, res = lab.call('compile_program', [d])
+        funcs = lab.program([(k, [FAMILY[i] for i in cl]) for k, cl in prog])
         problems = []
-        funcs = None
-        if lab.kind(res) == 'YPCodeProgram':
-            fa = lab.ctor_args(res)
-            funcs = lab.sx.as_sequence(fa[0]) if fa else None
-        if funcs is None:
-            rep.violation(rid, key, 'compile_program gives %r, not a program of functions' % (res,), f.loc())
+        if isinstance(funcs, str):
+            rep.violation(rid, key, funcs, f.loc())
             continue
         if len(funcs) != len(prog):
             problems.append('%d function(s) for %d predicate key(s)' % (len(funcs), len(prog)))
-        for (k, cl), fn in zip(prog, funcs):
-            if lab.kind(fn) != 'YPCodeFunction':
-                problems.append('an element of the program is %r' % (fn,))
-                continue
-            a = lab.ctor_args(fn)
-            if lab.text(a[0]) != k[0]:
-                problems.append('the function for %s/%d is named %s' % (k[0], k[1], lab.text(a[0])))
-            params = [lab.text(x) for x in (lab.sx.as_sequence(a[1]) or [])]
+        for (k, cl), (fname, params, body) in zip(prog, funcs):
+            if fname != k[0]:
+                problems.append('the function for %s/%d is named %s' % (k[0], k[1], fname))
             if params != ['arg%d' % (j + 1) for j in range(k[1])]:
                 problems.append('the function for %s/%d has the parameters %s, the clause code refers to arg1..arg%d' % (k[0], k[1], params, k[1]))
-            body = lab.sx.as_sequence(a[2])
-            if body is None:
-                problems.append('the body of the function for %s/%d is %r' % (k[0], k[1], a[2]))
-                continue
             pos = 0
             for idx, ci in enumerate(cl):
                 want = solo[ci]
